@@ -103,6 +103,24 @@ def judge_step(pp, vidx, voc, prog_idx, ai, parent_results):
                                 f"program [{text}] with a (refused) bake() after each step that leaves a declared object unused: "
                                 f"'{n}' differs from the result without those calls: {d}", case))
                     break
+    # the same program with the outside objects declared in other ways (one uses() call mixing an iterable and plain arguments,
+    # a generator, chained calls): how objects were declared must not matter
+    if len(e2.outside_mentioned(full)) >= 2 and not vs:
+        for declare in ('list-then-args', 'args-then-generator', 'chained'):
+            b3 = e2.bake(pp, vidx, full, declare=declare)
+            d = None
+            if not b3['ok']:
+                d = f"bake raises {outcome_class(b3['exc'])}: {b3['exc']} (at {b3['phase']})"
+            else:
+                for n in sorted(names):
+                    d = 'missing' if n not in b3['results'] else e2.same_object(pp, b3['results'][n], got[n])
+                    if d:
+                        d = f"'{n}': {d}"
+                        break
+            if d:
+                vs.append(V(f"bake | depends-on-how-objects-were-declared | {feat},declare={declare}",
+                            f"program [{text}] with the outside objects declared as '{declare}': {d}", case))
+                break
     return vs, True, cls
 
 
